@@ -111,6 +111,42 @@ pub fn run(name: &str) -> Option<bool> {
             let cluster = crate::outcome::run(&p, &bytes(&["-akx=y"]));
             split.is_value() && split != cluster
         }
+        // C10: `--help` next to a failing adjacent group (`--help --point 1`) reported the group's
+        // error because the failed group left a narrowed scope behind
+        "help_next_to_failing_adjacent_group" => {
+            let group = Spec::Adj(vec![
+                item(1, Names::long("point"), Leaf::ReqFlag),
+                pos(2, Ty::U32),
+                pos(3, Ty::U32),
+            ]);
+            let o = OptSpec::plain(Spec::Seq(vec![group]));
+            let p = build_options(&o);
+            let a = crate::outcome::run(&p, &bytes(&["--help", "--point", "1"]));
+            let b = crate::outcome::run(&p, &bytes(&["--point", "-h", "1", "2"]));
+            !(a.is_stdout() && b.is_stdout())
+        }
+        // C10: `sub --help` while a field of the enclosing level (declared before the command)
+        // is missing: sequential composition reports the enclosing field first, the inner help
+        // is lost
+        "help_behind_failing_enclosing_field" => {
+            let inner = OptSpec::plain(Spec::Seq(vec![item(3, Names::long("inner"), Leaf::Switch)]));
+            let cmd = Spec::Cmd(Box::new(CmdSpec {
+                id: 2,
+                names: vec!["sub".to_string()],
+                shorts: vec![],
+                help: None,
+                adjacent: false,
+                opts: inner,
+            }));
+            let o = OptSpec::plain(Spec::Seq(vec![
+                item(1, Names::long("req"), Leaf::ReqFlag),
+                Spec::Alt(vec![cmd]),
+            ]));
+            let p = build_options(&o);
+            let with_req = crate::outcome::run(&p, &bytes(&["--req", "sub", "--help"]));
+            let without = crate::outcome::run(&p, &bytes(&["sub", "--help"]));
+            with_req.is_stdout() && !without.is_stdout()
+        }
         _ => return None,
     })
 }
